@@ -126,8 +126,8 @@ pub enum VRes {
     Collected(Vec<(Vec<(String, String)>, f64)>),
 }
 
-pub const TUPLES2: &[[&str; 2]] = &[["ab", "c"], ["a", "bc"], ["", "abc"], ["é", "x"], ["abc", ""], ["x", "é"]];
-pub const TUPLES1: &[&str] = &["a", "b", "", "é", "ab"];
+pub const TUPLES2: &[[&str; 2]] = &[["ab", "c"], ["a", "bc"], ["", "abc"], ["é", "x"], ["abc", ""], ["x", "é"], ["a\u{ff}", "b"], ["a", "\u{ff}b"], ["a\u{1f}", ""], ["a", "\u{1f}"]];
+pub const TUPLES1: &[&str] = &["a", "b", "", "é", "ab", "\u{ff}", "a\u{0}"];
 
 fn gen_plan(seed: u64) -> VecPlan {
     let mut r = Rng::new(seed, 1);
